@@ -324,6 +324,7 @@ LOOP:
 }
 
 func (r *committedReader) waitForHW(ctx context.Context, hw int64) error {
+	verifGate("reader.before_wait_hw")
 	wait := r.cl.waitForHW(r, hw)
 	select {
 	case <-r.cl.closed:
